@@ -53,7 +53,9 @@ ObsInit == [
     att      |-> EmptyFn,      \* attempt id -> record
     lastAtt  |-> 0,
     try      |-> [host |-> -1, t |-> 0, failT |-> -1, ok |-> FALSE, n |-> 0],  \* the broker currently being tried
-    terminal |-> FALSE,        \* the caller ended the client (cancel / disconnect / destroy)
+    terminal |-> FALSE,        \* the caller ended the client (cancel / disconnect / destroy / a terminal per-operation cancellation)
+    mustDrain |-> FALSE,       \* ... by cancel(), async_disconnect or destruction: C05 then demands that everything completes
+                               \* (a terminal per-operation cancellation MAY end the whole client, the property does not demand it)
     termOrd  |-> -1,           \* number of requests initiated before that
     running  |-> FALSE,        \* async_run called and not ended since
     disc     |-> [op |-> 0, t |-> 0, rc |-> 0, dig |-> "", len |-> 0, maxpkt |-> 0,
@@ -64,6 +66,7 @@ ObsInit == [
     q1acked  |-> {},           \* broker QoS 1 messages acknowledged by the client
     hostile  |-> FALSE,        \* the broker sent something a conformant broker would not (raw bytes, a SUBACK with wrong codes)
     relsd    |-> {},           \* QoS 2 requests whose successful PUBREC the client has consumed (hook: dispatch / wait)
+    recd     |-> {},           \* QoS 2 requests whose successful PUBREC the client has read off the connection (hook: dispatch)
     subOk    |-> FALSE,        \* a subscription succeeded since start / last session_expired report
     owed     |-> 0,            \* session_expired reports owed and not yet delivered
     expired  |-> 0,            \* session_expired reports delivered
@@ -211,11 +214,11 @@ StepCall(o, e) ==
                 \* C08: the identifier is the least one not in use, so it cannot exceed this bound
                 pidBound |-> 1 + Cardinality({id2 \in OpIds(o) : o.ops[id2].kind \in PidKinds /\ o.ops[id2].done = 0})]
         o1 == [o EXCEPT !.ops = Upd(o.ops, e.op, rec), !.nops = o.nops + 1]
-    IN IF e.kind = "run" THEN [o1 EXCEPT !.running = TRUE, !.terminal = FALSE, !.termOrd = -1,
+    IN IF e.kind = "run" THEN [o1 EXCEPT !.running = TRUE, !.terminal = FALSE, !.mustDrain = FALSE, !.termOrd = -1,
                                          !.try = [host |-> -1, t |-> 0, failT |-> -1, ok |-> FALSE, n |-> o.try.n],
                                          !.disc = [@ EXCEPT !.op = 0, !.doneT = -1, !.on = {}]]
        ELSE IF e.kind = "disc"
-         THEN [o1 EXCEPT !.terminal = TRUE, !.termOrd = IF o.terminal THEN o.termOrd ELSE o1.nops,
+         THEN [o1 EXCEPT !.terminal = TRUE, !.mustDrain = TRUE, !.termOrd = IF o.terminal THEN o.termOrd ELSE o1.nops,
                          !.disc = [op |-> e.op, t |-> e.t, rc |-> e.qos, dig |-> e.dig, len |-> e.len,
                                    maxpkt |-> e.h_maxpkt, c |-> 0, wrote |-> FALSE, on |-> {}, doneT |-> -1]]
        ELSE o1
@@ -315,7 +318,12 @@ StepHook(o, e) ==
     IF (e.k = "dispatch" \/ e.k = "wait") /\ e.a = 80 /\ e.c = 1 THEN
         LET ids == {id \in OpIds(o) : o.ops[id].kind = "pub2" /\ o.ops[id].pid = e.b /\ o.ops[id].done = 0}
             recs == {j \in DOMAIN o.sent : o.sent[j].type = "PUBREC" /\ o.sent[j].pid = e.b}
-        IN IF ids # {} /\ recs # {} /\ o.sent[Max(recs)].rc < 128 THEN [o EXCEPT !.relsd = @ \cup ids] ELSE o
+        IN IF ids # {} /\ recs # {} /\ o.sent[Max(recs)].rc < 128 THEN [o EXCEPT !.relsd = @ \cup ids, !.recd = @ \cup ids] ELSE o
+    ELSE IF e.k = "dispatch" /\ e.a = 80 THEN
+        \* read, no request waiting for it yet: kept as a "fast reply" for the request whose write is still completing
+        LET ids == {id \in OpIds(o) : o.ops[id].kind = "pub2" /\ o.ops[id].pid = e.b /\ o.ops[id].done = 0}
+            recs == {j \in DOMAIN o.sent : o.sent[j].type = "PUBREC" /\ o.sent[j].pid = e.b}
+        IN IF ids # {} /\ recs # {} /\ o.sent[Max(recs)].rc < 128 THEN [o EXCEPT !.recd = @ \cup ids] ELSE o
     ELSE o
 
 ObsStep(o, e) ==
@@ -329,8 +337,8 @@ ObsStep(o, e) ==
                                                 !.terminal = o.terminal \/ e.type = "terminal",
                                                 !.termOrd = IF ~o.terminal /\ e.type = "terminal" THEN o.nops ELSE o.termOrd]
                                  ELSE o
-      [] e.e = "cancel_all" -> [o EXCEPT !.terminal = TRUE, !.running = FALSE, !.termOrd = IF o.terminal THEN o.termOrd ELSE o.nops]
-      [] e.e = "destroy"    -> [o EXCEPT !.terminal = TRUE, !.running = FALSE, !.termOrd = o.nops]
+      [] e.e = "cancel_all" -> [o EXCEPT !.terminal = TRUE, !.mustDrain = TRUE, !.running = FALSE, !.termOrd = IF o.terminal THEN o.termOrd ELSE o.nops]
+      [] e.e = "destroy"    -> [o EXCEPT !.terminal = TRUE, !.mustDrain = TRUE, !.running = FALSE, !.termOrd = o.nops]
       [] e.e = "resolve"    -> [o EXCEPT !.try = [host |-> e.host, t |-> e.t, failT |-> -1, ok |-> FALSE, n |-> o.try.n + 1]]
       [] e.e = "resolve_end" -> IF e.ec # "ok" THEN [o EXCEPT !.try.failT = e.t] ELSE o
       [] e.e = "attempt"    -> [o EXCEPT !.att = Upd(o.att, e.a, [host |-> e.host, t |-> e.t, s |-> e.s, res |-> "",
@@ -453,6 +461,11 @@ PktClauses(o, e) ==
                  o.pkts[x].type = "PUBREL" /\ o.pkts[x].pid = e.pid /\ \E y \in earlier : y < x
             THEN {"C03_a_PublishAfterPubrel"} ELSE {})
     \cup (IF e.type = "PUBLISH" /\ ids # {} /\ Min(ids) \in o.relsd THEN {"C03_a_PublishAfterPubrecConsumed"} ELSE {})
+    \* ... nor after it has read the PUBREC while the write that carried the PUBLISH succeeded (the request then
+    \* finds the acknowledgement when it starts waiting; dropping it would make the client publish again)
+    \cup (IF e.type = "PUBLISH" /\ ids # {} /\ Min(ids) \in o.recd /\ Min(ids) \notin o.relsd /\ \E x \in earlier :
+                 o.pkts[x].w \in DOMAIN o.wr /\ o.wr[o.pkts[x].w].res = 1
+            THEN {"C03_a_PublishAfterPubrecRead"} ELSE {})
     \* C06: PUBLISH packets leave in initiation order
     \cup (IF known /\ e.type = "PUBLISH" /\ ids # {} /\ (e.qos > 0 \/ cr.rm = 65535) /\ \E x \in DOMAIN cr.ords :
                  /\ cr.ords[x].ord > o.ops[Min(ids)].ord
@@ -566,9 +579,9 @@ QuiesceClauses(o, e) ==
 DrainClauses(o, e) ==
     LET undoneBefore == {id \in OpIds(o) : o.ops[id].done = 0 /\ o.ops[id].ord <= o.termOrd}
         undoneAny    == {id \in OpIds(o) : o.ops[id].done = 0}
-    IN (IF o.terminal /\ undoneBefore # {} THEN {"C05_c_OperationNotCompletedAfterCancel"} ELSE {})
-    \cup (IF o.terminal /\ (e.timers # 0 \/ e.pending # 0) THEN {"C05_d_TimerOrIoLeftAfterCancel"} ELSE {})
-    \cup (IF o.terminal /\ undoneAny = {} /\ e.stopped # 1 THEN {"C05_d_ContextStillHasWork"} ELSE {})
+    IN (IF o.mustDrain /\ undoneBefore # {} THEN {"C05_c_OperationNotCompletedAfterCancel"} ELSE {})
+    \cup (IF o.mustDrain /\ (e.timers # 0 \/ e.pending # 0) THEN {"C05_d_TimerOrIoLeftAfterCancel"} ELSE {})
+    \cup (IF o.mustDrain /\ undoneAny = {} /\ e.stopped # 1 THEN {"C05_d_ContextStillHasWork"} ELSE {})
 
 \* ---- when a read of the client ends
 ReadClauses(o, e) ==
@@ -604,7 +617,7 @@ Viol(o, e) ==
       [] e.e = "resolve"      -> ResolveClauses(o, e)
       [] e.e = "quiesce_end"  -> QuiesceClauses(o, e) \cup OverdueClauses(o, e)
       [] e.e = "drain"        -> DrainClauses(o, e) \cup OverdueClauses(o, e)
-      [] e.e = "end"          -> DrainClauses([o EXCEPT !.terminal = TRUE, !.termOrd = o.nops], e)
+      [] e.e = "end"          -> DrainClauses([o EXCEPT !.terminal = TRUE, !.mustDrain = TRUE, !.termOrd = o.nops], e)
       \* an exception escaping the client, or a client that keeps itself busy without ever coming to rest: after hostile
       \* bytes that is C19; with a conformant broker it breaks whatever property is being checked (like a crash)
       [] e.e \in {"exception", "hang", "terminate"} -> IF o.hostile THEN {"C19_e_ExceptionOrHang"} ELSE {"C19_e_ExceptionOrHang", "CXX_x_ClientNeverComesToRest"}
